@@ -634,3 +634,23 @@ pub proof fn lemma_ts_step(segs: Seq<Segment>, i: int, t: int, count: int, k: Se
         assert(k + sm =~= take(kn, count));
     }
 }
+
+// label: C02.wf.bridge
+// read_wf's conjuncts about the last segment are consequences of part_wf, the invariant unit `offsets` maintains on the
+// write path (for a closed last segment additionally: it holds exactly the offsets start..=end_offset).
+pub proof fn c02_last_segment_from_part_wf(p: &Partition)
+    requires
+        part_wf(p),
+        last_seg(p).is_closed ==> last_seg(p).start_offset + seg_all(last_seg(p)).len() == last_seg(p).end_offset + 1,
+    ensures
+        last_seg(p).start_offset + seg_all(last_seg(p)).len() == next_offset(p),
+        seg_all(last_seg(p)).len() > 0 ==> last_seg(p).current_offset == p.current_offset,
+        seg_all(last_seg(p)).len() == 0 ==> last_seg(p).current_offset == last_seg(p).start_offset,
+        !last_seg(p).is_closed ==> contig(seg_all(last_seg(p)), last_seg(p).start_offset as int),
+{
+    let s = last_seg(p);
+    assert(seg_all(s) == seg_msgs(s));
+    if !s.is_closed && seg_msgs(s).len() > 0 {
+        assert(seg_msgs(s)[seg_msgs(s).len() - 1].offset == s.start_offset + seg_msgs(s).len() - 1);
+    }
+}
